@@ -7,7 +7,7 @@ import tprog, gen_dag
 PROP = 'C03'
 LEAN_TARGETS = ['Props.C03']
 REQUIRED_THEOREMS = ['Props.C03.postorder_topological', 'Props.C03.each_fn_once', 'Props.C03.backward_completes',
-                     'Props.C03.chain_rule_any_dag', 'Props.C03.optable_wellformed']
+                     'Props.C03.chain_rule_any_dag', 'Props.C03.optable_wellformed', 'Props.C03.code_loop_is_recursive_traversal']
 RULE = ('random DAG programs over the basic op catalogue (add, mul, neg, clone, pow, sum, mean, reshape, transpose, movedim, '
         'flatten, slice, unbind, stack, concat, matmul, squeeze, unsqueeze): 2-4 leaves of mixed requires_grad, up to 14 ops '
         '(quick) / 40 (thorough), results reused by later ops (fan-out), x op x, multi-output unbind, non-uniform upstream '
